@@ -209,6 +209,69 @@ def rule_assert_msg(text, ctx):
     return text
 
 
+def rule_assert_doc_panic(text, ctx):
+    """R8c: `assert!(COND, "literal");` -> `if !(COND) { verif_documented_panic(); }`"""
+    toks = L.code_toks(text)
+    for i, t in enumerate(toks):
+        if t.kind == 'ident' and t.text == 'assert' and toks[i + 1].text == '!' and toks[i + 2].text == '(':
+            close = L.match_close(toks, i + 2)
+            depth = 0
+            for k in range(i + 3, close):
+                tk = toks[k]
+                if tk.text in L.OPEN:
+                    depth += 1
+                elif tk.text in L.CLOSE:
+                    depth -= 1
+                elif tk.text == ',' and depth == 0:
+                    rest = toks[k + 1:close]
+                    if all(r.kind == 'string' or r.text == ',' for r in rest) and toks[close + 1].text == ';':
+                        cond = ' '.join(text[toks[i + 2].e:tk.s].split())
+                        new = 'if !(%s) { verif_documented_panic(); }' % cond
+                        ctx.note('R8c', text[t.s:toks[close + 1].e], new)
+                        return rule_assert_doc_panic(text[:t.s] + new + text[toks[close + 1].e:], ctx)
+                    break
+    return text
+
+
+def rule_enumerate_call(text, ctx):
+    """R17: `RECV.enumerate()` -> `verif_enumerate(RECV)` where RECV is an identifier or a call `A::b(args)`."""
+    while True:
+        toks = L.code_toks(text)
+        hit = None
+        for i, t in enumerate(toks):
+            if t.kind == 'ident' and t.text == 'enumerate' and toks[i - 1].text == '.' and toks[i + 1].text == '(' and toks[i + 2].text == ')':
+                j = i - 2
+                if toks[j].text == ')':
+                    # find matching open paren, then the path before it
+                    depth = 0
+                    k = j
+                    while k >= 0:
+                        if toks[k].text == ')':
+                            depth += 1
+                        elif toks[k].text == '(':
+                            depth -= 1
+                            if depth == 0:
+                                break
+                        k -= 1
+                    k -= 1
+                    while k >= 2 and toks[k - 1].text == ':' and toks[k - 2].text == ':':
+                        k -= 3
+                    start = k
+                elif toks[j].kind == 'ident':
+                    start = j
+                else:
+                    continue
+                hit = (start, i)
+                break
+        if not hit:
+            return text
+        start, i = hit
+        recv = text[toks[start].s:toks[i - 1].s]
+        new = 'verif_enumerate(%s)' % recv.strip()
+        ctx.note('R17', text[toks[start].s:toks[i + 2].e], new)
+        text = text[:toks[start].s] + new + text[toks[i + 2].e:]
+
+
 def rule_for_to_loop(text, ctx, all_for=False):
     """R3: `for PAT in EXPR.by_ref() {B}` -> `loop { match EXPR.next() { Some(PAT) => {B} None => {break;} } }`.
     With all_for, `for PAT in EXPR {B}` over a generic IntoIterator is rewritten with an explicit
@@ -497,6 +560,10 @@ def apply_fn(text, spec, ctx, assoc_types=None, canary=False):
         text = rule_enumerate(text, ctx)
     text = rule_get_unchecked(text, ctx)
     text = rule_debug_assert(text, ctx)
+    if 'R8c' in spec.rules:
+        text = rule_assert_doc_panic(text, ctx)
+    if 'R17' in spec.rules:
+        text = rule_enumerate_call(text, ctx)
     text = rule_assert_msg(text, ctx)
     if 'R5' in spec.rules:
         text = rule_ref_patterns(text, ctx)
@@ -752,7 +819,10 @@ def process_template(unit, tpl_path=None, canary=False):
                 ctx.cur = (path, kind + ' ' + name)
                 ctx.items.append({'file': path, 'item': ctx.cur[1], 'sha256': hashlib.sha256(text.encode()).hexdigest()[:16],
                                   'lines': text.count('\n') + 1})
-                text = strip_attrs_and_docs(text, ctx)
+                if 'keepeq' in spec.rules:
+                    text = strip_attrs_and_docs(text, ctx, keep_derive=('Clone', 'Copy', 'PartialEq', 'Eq'))
+                else:
+                    text = strip_attrs_and_docs(text, ctx)
                 if 'keeppub' not in spec.rules:
                     text = strip_pub(text, ctx)
                 if 'R9' in spec.rules:
